@@ -502,6 +502,7 @@ class Insights:
     indexed_resources: set[Resource] = dataclasses.field(default_factory=set)
     watched_resources: set[Resource] = dataclasses.field(default_factory=set)
     namespaces: set[Namespace] = dataclasses.field(default_factory=set)
+    discovered_resources: set[Resource] = dataclasses.field(default_factory=set)
     namespace_uids: dict[Namespace, str] = dataclasses.field(default_factory=dict)
     backbone: Backbone = dataclasses.field(default_factory=Backbone)
 
